@@ -6,6 +6,7 @@ import (
 	"flag"
 	"fmt"
 	"os"
+	"runtime"
 	"runtime/debug"
 	"runtime/pprof"
 	"strings"
@@ -95,6 +96,9 @@ func main() {
 			fmt.Println("cannot parse replay file:", err)
 			os.Exit(2)
 		}
+		if strings.HasPrefix(f.Class, "single-processor") {
+			runtime.GOMAXPROCS(1)
+		}
 		if strings.HasPrefix(f.Class, "verbose/") {
 			logger.SetLevel(2) // the case was found while the library logged at verbosity 2
 		}
@@ -125,6 +129,7 @@ func main() {
 	x.LoadKnown(*known)
 	w(x)
 	props.RunDefaultRootTwins(x)
+	props.RunSingleProcessorPhase(x)
 	rc := x.Finish(*evidence)
 	pprof.StopCPUProfile()
 	os.Exit(rc)
